@@ -173,6 +173,30 @@ pub fn fixed_tokens() -> Vec<Vec<u8>> {
     ] {
         v.push(s.as_bytes().to_vec());
     }
+    // OSC colour replies whose components are hostile: empty, too long, signs, multi-byte
+    // characters at every offset, invalid UTF-8
+    let comps: [&[u8]; 12] = [
+        b"0", b"ff", b"fff", b"ffff", b"12345", b"", b"+1", "0\u{e9}".as_bytes(), "\u{e9}0".as_bytes(), "a\u{20ac}".as_bytes(),
+        "\u{20ac}".as_bytes(), b"0\x80",
+    ];
+    for name in [&b"10"[..], b"11", b"4;1"] {
+        for c1 in comps.iter() {
+            for c2 in comps.iter() {
+                for c3 in comps.iter() {
+                    let mut t = b"\x1b]".to_vec();
+                    t.extend_from_slice(name);
+                    t.extend_from_slice(b";rgb:");
+                    t.extend_from_slice(c1);
+                    t.push(b'/');
+                    t.extend_from_slice(c2);
+                    t.push(b'/');
+                    t.extend_from_slice(c3);
+                    t.push(0x07);
+                    v.push(t);
+                }
+            }
+        }
+    }
     // non UTF-8 and long payloads
     for payload in [vec![0xffu8, 0xfe], vec![0xc3], vec![0xed, 0xa0, 0x80], vec![b'x'; 4096]] {
         let mut t = b"\x1b[200~".to_vec();
@@ -473,6 +497,19 @@ pub fn worker(ctx: &Ctx, mut wc: WorkerCtx, _extra: &[String]) {
                         if k == len {
                             break;
                         }
+                    }
+                }
+                // selected leads followed by four bytes: what follows an invalid scalar value (or a
+                // complete character) must be decoded from a clean state
+                if [0xC3u8, 0xE0, 0xE2, 0xED, 0xF0, 0xF4, 0xF5].contains(&lead) {
+                    for i in 0..conts.len().pow(4) {
+                        let mut s = vec![lead];
+                        let mut x = i;
+                        for _ in 0..4 {
+                            s.push(conts[x % conts.len()]);
+                            x /= conts.len();
+                        }
+                        seqs.push(s);
                     }
                 }
                 for s in &seqs {
